@@ -1,4 +1,4 @@
-"""C04 — messages reach exactly the addressed sessions, once, with the true sender."""
+"""C04 — room membership consistent for server and observers."""
 from . import _hub
 
 CONFIG = dict(
@@ -15,7 +15,7 @@ CONFIG = dict(
 )
 
 MANIFEST = dict(
-    text="Lean 4 theorems over the hub model for every finite op sequence: a session is a member of a room exactly if its own record names that room (hence at most one room), rooms are never empty and list members once, room bus listeners are exactly the non-virtual members, rooms of different backends are disjoint (corollaries of a 25-clause structural invariant proved preserved by every operation). The model is tied to the code by regenerated facts and a differential run of the real Hub (websocket clients, fake backend, loopback bus) whose tables and per-connection deliveries are compared with the model at every step; the judge checks the membership clauses on the implementation's own tables and replays each connected member's join/leave events into its view of the room.",
+    text="Lean 4 theorems over the hub model for every finite op sequence: a session is a member of a room exactly if its own record names that room (hence at most one room), rooms are never empty and list members once, room bus listeners are exactly the non-virtual members, rooms of different backends are disjoint (corollaries of a 25-clause structural invariant proved preserved by every operation). The model is tied to the code by regenerated facts and a differential run of the real Hub (websocket clients, fake backend, loopback bus) whose tables and per-connection deliveries are compared with the model at every step; the judge checks the membership clauses on the implementation's own tables, compares the server's member sets with the statement's (latest successful join, not left/removed/bye/expired since — the model's rooms) and replays each connected member's join/leave events into its view of the room. First joins of one room are also issued concurrently (the fake backend releases the racing join replies together); that the lookup-and-create of a room is one critical section is a regenerated fact (C04_room_creation_atomic).",
     note="Synchronous routing layer: single hub, loopback bus, quiescence between ops (delivery orders of an asynchronous bus are not quantified over: the observer clause is checked by the judge on real traces, not proved); the 'latest successful join' reading is state-based (the session's own record).",
     technique="Lean 4 proof (routing refinement over the hub model) + differential correspondence",
 )
